@@ -56,8 +56,9 @@ def check(tier):
                        "random forms, on generated module sets and on real-world modules that compile; non-trivial = a boundary was "
                        "found and re-laid out")
     run.cov["samples"] = [{k: e[k] for k in ("mode", "form", "cl", "cr", "asn", "same")} for e in events if e["mode"] == "single boundary"][:6]
-    run.assumptions = ["the harness tokenizer decides where the boundaries are (it is exercised by the fact that the unchanged layout "
-                       "and the all-boundaries sweeps reproduce the baseline)",
+    run.assumptions = ["the harness tokenizer decides where the boundaries are; on a real-world file where the all-spaces relayout does not "
+                       "reproduce the baseline every boundary that is sensitive to one space is reported (none on the reference tree over all "
+                       "modules of the repository below 12 KB); '@.' of a component relation is one token",
                        "bindings are compared through the syn projection with doc attributes removed"]
     return run.finish()
 
